@@ -27,6 +27,11 @@ inductive TAtom where
   | inBackend            -- `item in self._backend`  (H5Group.__contains__: a link of that name)
   | getByIdOk            -- `self._backend.get_by_id(item)` does not raise KeyError
   | scanNameFinds        -- `for grp in self._backend: if item == grp.get_attr("name")` finds one
+  -- nixio/hdf5/h5group.py (`self.group`: the h5py group of the container, None when it does not exist)
+  | groupThere           -- `self.group` (truth value)
+  | groupIsNone          -- `self.group is None`
+  | nameInGroup          -- `item in self.group`
+  | scanIdFinds          -- `for grp in self: if grp.get_attr("entity_id") == item` finds one
   deriving DecidableEq, Repr
 
 /-- the returned expressions of the code -/
@@ -41,6 +46,9 @@ inductive RAtom where
   | byPos                -- the positional branch of `Container.__getitem__` (pinned as a whole by the translator)
   | getById              -- `return self.get_by_id(item)`   (H5Group)
   | getByName            -- `return self.get_by_name(item)` (H5Group)
+  | fromGroup            -- `return self.create_from_h5obj(self.group[item])`
+  | scanIdItem           -- `return grp` of the scan by `entity_id`
+  | inGroup              -- `return item in self.group`
   deriving DecidableEq, Repr
 
 inductive DT where
@@ -62,6 +70,16 @@ def testVal (g : Graph) (c : Cont) (key : Key) : TAtom → Bool
   | .inBackend => match key with | .str x => (getByName g c.node x).isSome | _ => false
   | .getByIdOk => match key with | .str x => (getById g c.node x).isSome | _ => false
   | .scanNameFinds => match key with | .str x => (scanByNameAttr g c.node x).isSome | _ => false
+  | .groupThere => c.node.isSome
+  | .groupIsNone => c.node.isNone
+  | .nameInGroup =>
+    match key, c.node with
+    | .str x, some k => (g.links k).any fun l => l.1 == x
+    | _, _ => false
+  | .scanIdFinds =>
+    match key with
+    | .str x => (cLinks g c.node).any fun l => g.entityId l.2 == some x
+    | _ => false
 
 /-- a returned expression as the result of a membership test (`none`: not a truth value) -/
 def retHas (g : Graph) (c : Cont) (key : Key) : RAtom → Option (Except Err Bool)
@@ -83,6 +101,7 @@ def retHas (g : Graph) (c : Cont) (key : Key) : RAtom → Option (Except Err Boo
       | some i => some (.ok (getByName g c.node i).isSome)
       | none => some (.ok false))
     | _ => none
+  | .inGroup => some (.ok (testVal g c key .nameInGroup))
   | _ => none
 
 def orKeyError (o : Option (String × Nat)) : Except Err (String × Nat) :=
@@ -100,6 +119,14 @@ def retGet (g : Graph) (c : Cont) (key : Key) : RAtom → Option (Except Err (St
 def retLookup (g : Graph) (c : Cont) (key : Key) : RAtom → Option (Option (String × Nat))
   | .getById => match key with | .str x => some (getById g c.node x) | _ => none
   | .getByName => match key with | .str x => some (getByName g c.node x) | _ => none
+  | .fromGroup =>        -- `self.group[item]`: the link of that name
+    match key, c.node with
+    | .str x, some k => some ((g.links k).find? fun l => l.1 == x)
+    | _, _ => none
+  | .scanIdItem =>       -- the first member, in iteration order, whose `entity_id` is the text
+    match key with
+    | .str x => some ((cLinks g c.node).find? fun l => g.entityId l.2 == some x)
+    | _ => none
   | _ => none
 
 def DT.evalHas (g : Graph) (c : Cont) (key : Key) : DT → Option (Except Err Bool)
